@@ -28,6 +28,16 @@ def _(self, key, metadata):
     pass
 
 
+@interface("TargetStore.contains", params=dict(self=TS, key=Str), returns=Bool)
+def _(self, key):
+    raises(Exception, label="any-failure-of-the-store")
+
+
+@interface("TargetStore.is_dir", params=dict(self=TS, key=Str), returns=Bool)
+def _(self, key):
+    raises(Exception, label="any-failure-of-the-store")
+
+
 @assumed("liquer.metadata.Metadata.__init__", params=dict(self=Ref("Metadata"), metadata=SMeta))
 def _(self, metadata=None):
     modifies(self.status)
